@@ -3,6 +3,19 @@
 # certain rights in this software.
 
 from jaqalpaq.error import JaqalError
+from .parameter import AnnotatedValue, ParamType
+
+
+def validate_iterations(iterations):
+    """Make sure a loop or subcircuit count is an integer, or a let
+    constant or macro parameter that can stand for one."""
+    if isinstance(iterations, AnnotatedValue):
+        if iterations.kind not in (ParamType.INT, ParamType.NONE):
+            raise JaqalError(
+                f"Count {iterations.name} has non-integer kind {iterations.kind}"
+            )
+    elif not isinstance(iterations, int):
+        raise JaqalError(f"Count {iterations} is not an integer")
 
 
 class BlockStatement:
@@ -27,6 +40,8 @@ class BlockStatement:
         self._iterations = iterations
         if not self._subcircuit and self._iterations != 1:
             raise JaqalError("Only subcircuits may have iterations != 1")
+        if self._subcircuit:
+            validate_iterations(iterations)
         if statements is None:
             self._statements = []
         else:
@@ -96,6 +111,7 @@ class LoopStatement:
     """
 
     def __init__(self, iterations, statements=None):
+        validate_iterations(iterations)
         self._iterations = iterations
         if statements is None:
             self._statements = BlockStatement()
